@@ -1,0 +1,5 @@
+//go:build !verif
+
+package machine
+
+func verifAt(m *Machine, point string) {}
